@@ -57,6 +57,10 @@ SYMBOLS: Dict[str, dict] = {
     "mul3": dict(node=_n("VMul", {"factor": 3.0}), kind="op", proc="VMul", params=[("factor", NODEF)], cfg={"factor": 3.0}, reads=["factor"]),
     "mul": dict(node=_n("VMul"), kind="op", proc="VMul", params=[("factor", NODEF)], cfg={}, reads=["factor"]),
     "muldef": dict(node=_n("VMulDef"), kind="op", proc="VMulDef", params=[("factor", 2.0)], cfg={}, reads=["factor"]),
+    # a parameter the node configuration sets to null IS configured (node > context > default), and non-finite numbers are numbers
+    "mulnone": dict(node=_n("VMul", {"factor": None}), kind="op", proc="VMul", params=[("factor", NODEF)], cfg={"factor": None}, reads=["factor"]),
+    "muldefnone": dict(node=_n("VMulDef", {"factor": None}), kind="op", proc="VMulDef", params=[("factor", 2.0)], cfg={"factor": None}, reads=["factor"]),
+    "mulinf": dict(node=_n("VMul", {"factor": float("inf")}), kind="op", proc="VMul", params=[("factor", NODEF)], cfg={"factor": float("inf")}, reads=["factor"]),
     "add": dict(node=_n("VAdd"), kind="op", proc="VAdd", params=[("addend", NODEF)], cfg={}, reads=["addend"]),
     "two": dict(node=_n("VTwo"), kind="op", proc="VTwo", params=[("factor", NODEF), ("addend", 0.5)], cfg={}, reads=["factor", "addend"]),
     "two_cfg": dict(node=_n("VTwo", {"addend": 0.25}), kind="op", proc="VTwo", params=[("factor", NODEF), ("addend", 0.5)], cfg={"addend": 0.25}, reads=["factor", "addend"]),
@@ -105,6 +109,9 @@ SYMBOLS: Dict[str, dict] = {
                      kind="sweep_op", proc="VMul", vars={"t": [1.0, 2.0]}, params=[], cfg={}, reads=["t_values"]),
     "sweep_two": dict(node=_sweep("VTwo", {"factor": "t"}, {"t": {"values": [1.0, 2.0]}}, "FloatDataCollection"),
                       kind="sweep_op", proc="VTwo", vars={"t": [1.0, 2.0]}, params=[("addend", 0.5)], cfg={}, reads=["t_values", "addend"]),
+    # the SAME element class swept over its other parameter: two generated classes with one name and different parameter lists
+    "sweep_two_b": dict(node=_sweep("VTwo", {"addend": "t"}, {"t": {"values": [1.0, 2.0]}}, "FloatDataCollection"),
+                        kind="sweep_op", proc="VTwo", swept="addend", vars={"t": [1.0, 2.0]}, params=[("factor", NODEF)], cfg={}, reads=["t_values", "factor"]),
     "sweep_probe": dict(node=_sweep("VFactorProbe", {"factor": "t"}, {"t": {"values": [1.0, 2.0]}}, None, context_key="r"),
                         kind="sweep_probe", proc="VFactorProbe", ckey="r", vars={"t": [1.0, 2.0]}, params=[], cfg={}, reads=["t_values", "r"]),
     # sinks
